@@ -137,7 +137,13 @@ func RunCcelCase(cs map[string]any, id int, seed int64, bits int) Result {
 			}
 			priorEv = Event{"ev": "Prior", "result": r0, "err": o0.ErrText()}
 		}
-		opts.Verification = VerifyOpts(c, []map[string]any{{"gc": false, "cr": false}, {"gc": true, "cr": false}, {"gc": true, "cr": true}}[lvl])
+		if vo := VerifyOpts(c, []map[string]any{{"gc": false, "cr": false}, {"gc": true, "cr": false}, {"gc": true, "cr": true}}[lvl]); priorEv != nil {
+			// the very verify.Options object of the earlier call is used again: the caller only re-assigns its exported fields
+			ov := opts.Verification
+			ov.GetCollateral, ov.CheckRevocations, ov.Getter, ov.Now, ov.TrustedRoots = vo.GetCollateral, vo.CheckRevocations, vo.Getter, vo.Now, vo.TrustedRoots
+		} else {
+			opts.Verification = vo
+		}
 		if cs["ld"] == "unsupported" {
 			opts.ExtractOpt = extract.Opts{}
 		}
